@@ -111,9 +111,28 @@ def build_harness(ctx):
     return out
 
 
+def build_harness_race(ctx):
+    """The same harness built with the race detector (concurrent rounds of C20)."""
+    if getattr(ctx, "gvh_race", None):
+        return ctx.gvh_race
+    out = os.path.join(ctx.work, "gvh-race")
+    t = time.time()
+    env = dict(go_env())
+    env["CGO_ENABLED"] = "1"
+    p = subprocess.run(["go", "build", "-race", "-tags", "verif", "-o", out, "./cmd/gvh"], cwd=HARNESS, env=env,
+                       capture_output=True, text=True, timeout=1200)
+    if p.returncode != 0:
+        raise Infra("race build of the harness failed:\n%s" % (p.stdout + p.stderr)[-3000:])
+    ctx.gvh_race = out
+    log("[build] gvh-race built in %.1fs" % (time.time() - t))
+    return out
+
+
 def gvh(ctx, args, timeout=3600, check=True, stdin=None):
     exe = build_harness(ctx)
-    env = go_env()
+    env = dict(go_env())
+    if getattr(ctx, "gvh_race", None):
+        env["GVH_RACE"] = ctx.gvh_race
     env["VERIF_SEED"] = str(ctx.seed)
     env["VERIF_SCRATCH"] = ctx.sub("gvh-scratch")
     env["GVH_SELF"] = exe
